@@ -20,6 +20,8 @@ sys.path.insert(0, os.path.join(VERIF, 'lib'))
 import tlaval  # noqa: E402
 
 REPO = os.environ.get('VERIF_REPO', '/repo')
+# evidence of runs against another tree (seeded changes, pre-fix commits) must not replace the evidence about /repo
+EVID = os.environ.get('VERIF_EVIDENCE_DIR') or (os.path.join(VERIF, 'evidence') if os.path.realpath(REPO) == '/repo' else os.path.join('/var/tmp', 'vf-evidence-other'))
 NCPU = os.cpu_count() or 4
 
 
@@ -247,12 +249,12 @@ class Ctx:
         return True
 
     def finish(self, coverage, assumptions=None, level=None):
-        os.makedirs(os.path.join(VERIF, 'evidence', 'replay'), exist_ok=True)
+        os.makedirs(os.path.join(EVID, 'replay'), exist_ok=True)
         for h in self.known_hits:
             print('KNOWN-FINDING: property=%s %s: %s (x%d)' % (self.prop, h['id'], h['what'], h['count']))
         rc = 0
         for i, v in enumerate(self.violations[:20]):
-            path = os.path.join(VERIF, 'evidence', 'replay', '%s-%d.json' % (self.prop, i))
+            path = os.path.join(EVID, 'replay', '%s-%d.json' % (self.prop, i))
             json.dump({'property': self.prop, 'tier': self.tier, 'seed': self.seed, 'signature': v['signature'],
                        'what': v['what'], 'replay': v['replay']}, open(path, 'w'), indent=1, default=str)
             print('VIOLATION property=%s replay=%s' % (self.prop, path))
@@ -267,7 +269,7 @@ class Ctx:
         ev = {'property_id': self.prop, 'tier': self.tier, 'seed': self.seed, 'level': level or self.level,
               'coverage': cov, 'assumptions': (assumptions or []) + self.assumptions,
               'wall_s': round(time.time() - self.t0, 2), 'violations': len(self.violations)}
-        path = os.path.join(VERIF, 'evidence', self.prop + '.json')
+        path = os.path.join(EVID, self.prop + '.json')
         tmp = path + '.tmp'
         json.dump(ev, open(tmp, 'w'), indent=1, default=str)
         os.replace(tmp, path)
